@@ -342,7 +342,7 @@ theorem uniform_nodes (lo hi : Rat) (n : Nat) (hn : 2 ≤ n) (bl br : Bool) (i :
   have hn1 : (n : Rat) - 1 ≠ 0 := by linarith
   have hn2 : 2 * (n : Rat) - 1 ≠ 0 := by linarith
   have hn3 : (n : Rat) - 1 / 2 ≠ 0 := by linarith
-  simp only [uniformAxis]
+  simp only [uniformAxis, gminOf, gmaxOf]
   rw [if_neg (by omega)]
   cases bl <;> cases br <;> simp [halfCount] <;> field_simp <;> first | ring1 | (left; ring1)
 
@@ -381,7 +381,7 @@ theorem uniform_valid (lo hi : Rat) (hlh : lo < hi) (n : Nat) (hn : 1 ≤ n) (bl
   · have : n = 1 := by omega
     subst this
     refine ⟨le_refl _, fun i hi => by simp [uniformAxis] at hi, ?_, ?_⟩ <;>
-    cases bl <;> cases br <;> simp [uniformAxis] <;> norm_num <;> linarith
+    cases bl <;> cases br <;> simp [uniformAxis, gminOf, gmaxOf] <;> norm_num <;> linarith
   · have hpos := halfCount_lt bl br n h2
     have hh : 0 < (hi - lo) / ((n : Rat) - halfCount bl br) := div_pos (by linarith) hpos
     have hn' : (uniformAxis lo hi n bl br).n = n := rfl
@@ -647,6 +647,289 @@ theorem nonuniform_default (n : Nat) (c : Nat → Rat) (hn : 2 ≤ n)
     ext
     · simp only; rw [Bool.eq_iff_iff, isClose_exact_iff]; cases bl <;> simp <;> linarith
     · simp only; rw [Bool.eq_iff_iff, isClose_exact_iff]; cases br <;> simp <;> linarith
+
+
+theorem fromGrid_default (n : Nat) (c : Nat → Rat) (hn : 2 ≤ n) :
+    fromGridAxis n c none none = nonuniformAxis n c none none false false := by
+  have hne : ¬ n = 1 := by omega
+  simp [fromGridAxis, nonuniformAxis, hne]
+
+theorem fromGrid_explicit (n : Nat) (c : Nat → Rat) (a b : Rat) :
+    fromGridAxis n c (some a) (some b) = Part1.mk? ⟨n, c, a, b⟩ := by
+  simp [fromGridAxis]
+
+theorem wrapIndex_nat (n k : Nat) (hk : k < n) : wrapIndex n (k : Int) = some k := by
+  unfold wrapIndex
+  rw [if_pos ⟨by omega, by omega⟩]; simp
+
+theorem wrapIndex_neg (n k : Nat) (hk : k < n) : wrapIndex n ((k : Int) - n) = some k := by
+  unfold wrapIndex
+  rw [if_neg (by omega), if_pos ⟨by omega, by omega⟩]
+  congr 1; omega
+
+theorem mapM_wrapIndex (n : Nat) (idx : List Nat) (h : ∀ k ∈ idx, k < n) :
+    (idx.map (fun (k : Nat) => (k : Int))).mapM (wrapIndex n) = some idx := by
+  induction idx with
+  | nil => rfl
+  | cons a rest ih =>
+    have h1 := wrapIndex_nat n a (h a (by simp))
+    have h2 := ih (fun k hk => h k (by simp [hk]))
+    simp [List.mapM_cons, h1, h2]
+
+/-- `partition[[i0, …, ik]]` for a strictly increasing list of valid cell numbers. -/
+theorem getList_spec (P : Part1) (hv : Valid P) (first : Nat) (rest : List Nat)
+    (hlt : ∀ k ∈ first :: rest, k < P.n) (hinc : (first :: rest).Pairwise (· < ·)) :
+    ∃ Q, P.getList ((first :: rest).map (fun (k : Nat) => (k : Int))) = some Q ∧ Valid Q ∧
+      Q.n = rest.length + 1 ∧ (∀ i, Q.c i = P.c ((first :: rest).getD i 0)) ∧
+      Q.lo = P.bdry first ∧ Q.hi = P.bdry ((first :: rest).getLast (by simp) + 1) := by
+  have hm := mapM_wrapIndex P.n (first :: rest) hlt
+  have hget : ∀ i (hi : i < (first :: rest).length), (first :: rest).getD i 0 = (first :: rest)[i] := by
+    intro i hi; simp [List.getD, List.getElem?_eq_getElem hi]
+  have hlast : (first :: rest).getD ((first :: rest).length - 1) 0 = (first :: rest).getLast (by simp) := by
+    rw [hget _ (by simp), List.getLast_eq_getElem]
+  let Q : Part1 := ⟨(first :: rest).length, fun i => P.c ((first :: rest).getD i 0), P.bdry first,
+    P.bdry ((first :: rest).getLast (by simp) + 1)⟩
+  have hQ : Valid Q := by
+    refine ⟨by simp [Q], ?_, ?_, ?_⟩
+    · intro i hi
+      have hi' : i + 1 < (first :: rest).length := hi
+      show P.c ((first :: rest).getD i 0) < P.c ((first :: rest).getD (i + 1) 0)
+      rw [hget i (by omega), hget (i + 1) hi']
+      have h1 : (first :: rest)[i] < (first :: rest)[i + 1] :=
+        List.pairwise_iff_getElem.mp hinc i (i + 1) (by omega) hi' (by omega)
+      exact hv.c_strict h1 (hlt _ (List.getElem_mem _))
+    · show P.bdry first ≤ P.c ((first :: rest).getD 0 0)
+      simp only [List.getD_cons_zero]
+      exact node_ge_bdry P hv first (hlt first (by simp))
+    · show P.c ((first :: rest).getD ((first :: rest).length - 1) 0) ≤ _
+      rw [hlast]
+      exact node_le_bdry P hv _ (hlt _ (List.getLast_mem _))
+  refine ⟨Q, ?_, hQ, by simp [Q], fun i => rfl, rfl, rfl⟩
+  unfold Part1.getList
+  rw [hm]
+  simp only [Option.bind_eq_bind, Option.bind_some, List.head?_cons, List.getLast?_eq_getLast_of_ne_nil (List.cons_ne_nil _ _)]
+  have : (⟨(first :: rest).toArray.size, fun i => P.c ((first :: rest).toArray.getD i 0), P.bdry first,
+      P.bdry ((first :: rest).getLast (List.cons_ne_nil _ _) + 1)⟩ : Part1) = Q := by
+    simp [Q]
+  rw [this]
+  exact mk?_of_valid Q hQ
+
+
+theorem mapM_some_of_forall {α β} (g : α → Option β) (h : α → β) (l : List α)
+    (H : ∀ x ∈ l, g x = some (h x)) : l.mapM g = some (l.map h) := by
+  induction l with
+  | nil => rfl
+  | cons a rest ih =>
+    have h1 := H a (by simp)
+    have h2 := ih (fun x hx => H x (by simp [hx]))
+    simp [List.mapM_cons, h1, h2]
+
+/-- what `partition[tuple of 0 / slice(None)]` does to one axis -/
+def pick (p : Part1) (i : Idx) : Part1 :=
+  match i with
+  | .int _ => subPart p 0 1 1
+  | _ => p
+
+def selIdx (sel : List Nat) (j : Nat) : Idx :=
+  if sel.contains j then Idx.slice none none none else Idx.int 0
+
+theorem getAxis_selIdx (p : Part1) (hv : Valid p) (sel : List Nat) (j : Nat) :
+    getAxis p (selIdx sel j) = some (pick p (selIdx sel j)) := by
+  unfold selIdx
+  split_ifs
+  · exact getSlice_full p hv
+  · have := getInt_nat p hv 0 hv.pos
+    simpa [getAxis, pick] using this
+
+theorem normIdx_selIdx (sel : List Nat) (n : Nat) :
+    normIdx ((List.range n).map (selIdx sel)) n = some ((List.range n).map (selIdx sel)) := by
+  have hc : ((List.range n).map (selIdx sel)).count Idx.ellipsis = 0 := by
+    rw [List.count_eq_zero]
+    intro h
+    rw [List.mem_map] at h
+    obtain ⟨j, _, hj⟩ := h
+    unfold selIdx at hj
+    split_ifs at hj
+  unfold normIdx
+  simp [hc]
+
+
+theorem byaxisSel_spec (P : Part) (hv : ∀ p ∈ P, Valid p) (sel : List Nat) :
+    byaxisSel P sel = some (((List.range P.length).filter (fun j => sel.contains j)).filterMap
+      (fun j => P[j]?)) := by
+  have hQj : ∀ j (hj : j < P.length),
+      ((List.zip P ((List.range P.length).map (selIdx sel))).map (fun x => pick x.1 x.2))[j]? =
+        some (pick P[j] (selIdx sel j)) := by
+    intro j hj
+    simp [hj]
+  have hget : getItem P ((List.range P.length).map (selIdx sel)) =
+      some ((List.zip P ((List.range P.length).map (selIdx sel))).map (fun x => pick x.1 x.2)) := by
+    unfold getItem
+    rw [normIdx_selIdx]
+    simp only [Option.bind_eq_bind, Option.bind_some]
+    rw [if_neg (by simp)]
+    apply mapM_some_of_forall (fun x : Part1 × Idx => getAxis x.1 x.2) (fun x => pick x.1 x.2)
+    rintro ⟨p, i⟩ hx
+    obtain ⟨hp, hi⟩ := List.of_mem_zip hx
+    rw [List.mem_map] at hi
+    obtain ⟨j, _, rfl⟩ := hi
+    exact getAxis_selIdx p (hv p hp) sel j
+  generalize hQ : (List.zip P ((List.range P.length).map (selIdx sel))).map (fun x => pick x.1 x.2) = Q
+    at hQj hget
+  have hQlen : Q.length = P.length := by rw [← hQ]; simp
+  have hunsel : ∀ k ∈ (List.range P.length).filter (fun i => !sel.contains i), k < P.length := by
+    intro k hk
+    rw [List.mem_filter, List.mem_range] at hk
+    exact hk.1
+  have hbs : byaxisSel P sel = squeeze Q (some (((List.range P.length).filter
+      (fun i => !sel.contains i)).map fun (i : Nat) => (i : Int))) := by
+    show (getItem P ((List.range P.length).map (selIdx sel))).bind _ = _
+    rw [hget]; rfl
+  rw [hbs]
+  unfold squeeze
+  simp only [hQlen, Option.bind_eq_bind, mapM_wrapIndex P.length _ hunsel, Option.bind_some]
+  congr 1
+  have hC : (List.range P.length).filter (fun i =>
+      !((List.range P.length).filter (fun i => !sel.contains i)).contains i ||
+        decide (1 < (Q.getD i ⟨0, fun _ => 0, 0, 0⟩).n)) =
+      (List.range P.length).filter (fun j => sel.contains j) := by
+    apply List.filter_congr
+    intro j hj
+    rw [List.mem_range] at hj
+    have hq := hQj j hj
+    by_cases hs : sel.contains j = true
+    · have : ((List.range P.length).filter (fun i => !sel.contains i)).contains j = false := by
+        simp [hs] at *; intro _; exact hs
+      have hm : j ∈ sel := by simpa using hs
+      simp [hm]
+    · have hs' : sel.contains j = false := by simpa using hs
+      have h1 : ((List.range P.length).filter (fun i => !sel.contains i)).contains j = true := by
+        simp [hj]; simpa using hs'
+      have hm : j ∉ sel := by simpa using hs'
+      have h2 : (Q[j]?.getD ⟨0, fun _ => 0, 0, 0⟩).n = 1 := by
+        simp [hq, selIdx, hm, pick, subPart]
+      simp [h2, hm, hj]
+  rw [hC]
+  apply List.filterMap_congr
+  intro j hj
+  rw [List.mem_filter, List.mem_range] at hj
+  rw [hQj j hj.1, List.getElem?_eq_getElem hj.1]
+  have hm : j ∈ sel := by simpa using hj.2
+  simp [selIdx, hm, pick]
+
+
+theorem filter_range_singleton (n k : Nat) (hk : k < n) :
+    (List.range n).filter (fun j => [k].contains j) = [k] := by
+  induction n with
+  | zero => omega
+  | succ n ih =>
+    rw [List.range_succ, List.filter_append]
+    rcases Nat.lt_or_ge k n with h | h
+    · rw [ih h]
+      have : n ≠ k := by omega
+      simp [this]
+    · have e : k = n := by omega
+      subst e
+      have : (List.range k).filter (fun j => [k].contains j) = [] := by
+        rw [List.filter_eq_nil_iff]
+        intro j hj
+        rw [List.mem_range] at hj
+        have : j ≠ k := by omega
+        simp [this]
+      rw [this]; simp
+
+theorem byaxisInt_spec (P : Part) (hv : ∀ p ∈ P, Valid p) (k : Nat) (hk : k < P.length) :
+    byaxisInt P (k : Int) = some [P[k]] ∧ byaxisInt P ((k : Int) - P.length) = some [P[k]] := by
+  have h : byaxisSel P [k] = some [P[k]] := by
+    rw [byaxisSel_spec P hv, filter_range_singleton P.length k hk]
+    simp [hk]
+  unfold byaxisInt
+  rw [wrapIndex_nat _ _ hk, wrapIndex_neg _ _ hk]
+  exact ⟨h, h⟩
+
+theorem flatten_toList (P : Part) (l : List Nat) :
+    (l.map fun k => (P[k]?).toList).flatten = l.filterMap fun k => P[k]? := by
+  induction l with
+  | nil => rfl
+  | cons a rest ih =>
+    rw [List.map_cons, List.flatten_cons, ih, List.filterMap_cons]
+    cases h : P[a]? <;> simp
+
+theorem byaxisList_spec (P : Part) (hv : ∀ p ∈ P, Valid p) (l : List Nat) (hl : ∀ k ∈ l, k < P.length) :
+    byaxisList P (l.map fun (k : Nat) => (k : Int)) = some (l.filterMap fun k => P[k]?) := by
+  have hm : (l.map fun (k : Nat) => (k : Int)).mapM (byaxisInt P) =
+      some (l.map fun k => (P[k]?).toList) := by
+    rw [List.mapM_map]
+    apply mapM_some_of_forall
+    intro k hk
+    have := (byaxisInt_spec P hv k (hl k hk)).1
+    simp [this, List.getElem?_eq_getElem (hl k hk)]
+  unfold byaxisList
+  rw [hm]
+  simp only [Option.bind_eq_bind, Option.bind_some]
+  rw [← flatten_toList]
+  cases l with
+  | nil => rfl
+  | cons a rest =>
+    simp only [List.map_cons]
+    unfold append insert
+    simp only []
+    rw [if_neg (by omega), if_neg (by omega), Int.toNat_natCast, insertAt_block _ _ (le_refl _)]
+    simp
+
+
+theorem normIdx_explicit (idx : List Idx) (ndim : Nat) (hlen : idx.length = ndim)
+    (hne : Idx.ellipsis ∉ idx) : normIdx idx ndim = some idx := by
+  have hc : idx.count Idx.ellipsis = 0 := List.count_eq_zero.mpr hne
+  unfold normIdx
+  simp [hc, hlen]
+
+theorem getItem_axiswise (P : Part) (idx : List Idx) (hlen : idx.length = P.length)
+    (hne : Idx.ellipsis ∉ idx) :
+    getItem P idx = (List.zip P idx).mapM (fun x => getAxis x.1 x.2) := by
+  unfold getItem
+  rw [normIdx_explicit idx P.length hlen hne]
+  simp [hlen]
+
+/-- fewer indices than axes, no ellipsis: filled with `slice(None)` from the right -/
+theorem normIdx_short (idx : List Idx) (ndim : Nat) (hlen : idx.length < ndim)
+    (hne : Idx.ellipsis ∉ idx) :
+    normIdx idx ndim = some (idx ++ List.replicate (ndim - idx.length) (Idx.slice none none none)) := by
+  have hc : idx.count Idx.ellipsis = 0 := List.count_eq_zero.mpr hne
+  have hcont : idx.contains Idx.ellipsis = false := by simpa using hne
+  have hidx : (idx ++ [Idx.ellipsis]).idxOf Idx.ellipsis = idx.length := by
+    rw [List.idxOf_append_of_notMem hne]; simp
+  unfold normIdx
+  simp only [hlen, hcont, Bool.false_eq_true, not_false_eq_true, and_self, if_true]
+  have hc2 : (idx ++ [Idx.ellipsis]).count Idx.ellipsis = 1 := by simp [hc]
+  simp only [hc2, Nat.lt_irrefl, if_false, if_true, hidx]
+  have h1 : (idx ++ [Idx.ellipsis]).take idx.length = idx := by simp
+  have h2 : (idx ++ [Idx.ellipsis]).drop (idx.length + 1) = [] := by simp
+  rw [h1, h2]
+  simp only [List.length_append, List.length_singleton, List.append_nil, List.length_replicate]
+  have : ndim + 1 - (idx.length + 1) = ndim - idx.length := by omega
+  rw [this, if_neg (by omega)]
+
+/-- one ellipsis between `pre` and `post` expands to the missing number of `slice(None)` -/
+theorem normIdx_ellipsis (pre post : List Idx) (ndim : Nat) (hlen : pre.length + post.length ≤ ndim)
+    (h1 : Idx.ellipsis ∉ pre) (h2 : Idx.ellipsis ∉ post) :
+    normIdx (pre ++ Idx.ellipsis :: post) ndim =
+      some (pre ++ List.replicate (ndim - pre.length - post.length) (Idx.slice none none none) ++ post) := by
+  have hc1 : pre.count Idx.ellipsis = 0 := List.count_eq_zero.mpr h1
+  have hc2 : post.count Idx.ellipsis = 0 := List.count_eq_zero.mpr h2
+  have hcont : (pre ++ Idx.ellipsis :: post).contains Idx.ellipsis = true := by simp
+  have hidx : (pre ++ Idx.ellipsis :: post).idxOf Idx.ellipsis = pre.length := by
+    rw [List.idxOf_append_of_notMem h1]; simp
+  unfold normIdx
+  simp only [hcont, not_true_eq_false, and_false, if_false]
+  have hc : (pre ++ Idx.ellipsis :: post).count Idx.ellipsis = 1 := by simp [hc1, hc2]
+  simp only [hc, Nat.lt_irrefl, if_false, if_true, hidx]
+  have e1 : (pre ++ Idx.ellipsis :: post).take pre.length = pre := by simp
+  have e2 : (pre ++ Idx.ellipsis :: post).drop (pre.length + 1) = post := by simp
+  rw [e1, e2]
+  simp only [List.length_append, List.length_cons, List.length_replicate]
+  have : ndim + 1 - (pre.length + (post.length + 1)) = ndim - pre.length - post.length := by omega
+  rw [this, if_neg (by omega)]
 
 
 end OdlModel.Partition
